@@ -513,7 +513,12 @@ def scaling_inputs(prog: Program, rep) -> None:
         raise AnalysisError("Transformation.__init__ does not call create_scaling exactly once")
     si = ff.stmt_of(calls[0])
     pr, pa = [p for p in ti.params if p != "self"][:2]
-    a = [U(ff.resolved(si.stmt, z)) for z in calls[0].args]
+    from .common import bind_args as _bind
+    b_ = _bind(prog.func("pygradflow.scale.create_scaling"), calls[0])
+    if b_ is None:
+        raise AnalysisError("Transformation.__init__: cannot bind the arguments of create_scaling")
+    cps = prog.func("pygradflow.scale.create_scaling").params
+    a = [U(ff.resolved(si.stmt, b_[k])) if isinstance(b_.get(k), ast.AST) else None for k in cps[:4]]
     rep.check(a == [pr, pa, f"{pa}.scaling_primal", f"{pa}.scaling_dual"], "scaling-inputs-unmodified", ti.qualname, short(si.stmt),
               f"create_scaling receives (problem, params, params.scaling_primal, params.scaling_dual) unmodified (found {a})", ti.loc(calls[0]))
     cs = prog.func("pygradflow.scale.create_scaling")
